@@ -1,6 +1,7 @@
 (* Correspondence checker for C02 (evaluation half): the reference evaluator Spec.ExprSem.eval
    vs rendering `{{ (e) | probe }}` (the value) or `{{ e }}` (printing) with the real engine. *)
 From TeraV Require Import Model.Value Model.Pratt Spec.ExprSem.
+From TeraV Require Model.Order.
 Open Scope Z_scope.
 
 (* equality of results up to what C02 does not speak about: the width tag of an integer and the
@@ -19,17 +20,18 @@ Fixpoint val_sim (a b : value) {struct a} : bool :=
          | _, _ => false
          end) l l'
   | VMap m, VMap m' =>
-      (fix go (m m' : list (key * value)) : bool :=
-         match m, m' with
-         | [], [] => true
-         | (k, x) :: t, (k', y) :: t' =>
-             (match k, k' with
-              | KStr s _, KStr s' _ => str_eqb s s'
-              | KInt _ x, KInt _ y => Z.eqb x y
-              | KBool x, KBool y => Bool.eqb x y
-              | _, _ => false end) && val_sim x y && go t t'
-         | _, _ => false
-         end) m m'
+      (* as sets of entries: keys by value (Order.key_eq), order ignored *)
+      Nat.eqb (List.length m) (List.length m') &&
+      (fix go (m : list (key * value)) : bool :=
+         match m with
+         | [] => true
+         | (k, x) :: t =>
+             (fix look (m' : list (key * value)) : bool :=
+                match m' with
+                | [] => false
+                | (k', y) :: t' => (Order.key_eq k k' && val_sim x y) || look t'
+                end) m' && go t
+         end) m
   | VFloat x, VFloat y => sf_eqb_syn x y
   | VBytes x, VBytes y => list_eqb N.eqb x y
   | _, _ => false
